@@ -101,6 +101,8 @@ def run(ctx):
     r15_3(ctx, rep, roles)
     r15_4(ctx, rep)
     r15_5(ctx, rep, roles)
+    from .. import wrappers
+    wrappers.listeners(ctx, rep, roles, "C15", "R15.6")
 
 
 def r15_1(ctx, rep):
